@@ -14,10 +14,10 @@
  */
 /* VERIF-UNIT
 {
- "name": "crc32c_le",
+ "name": "tmp_le_cadical", "backend": "cadical",
  "props": ["C14"],
  "level": "U",
- "tier": "quick",
+ "tier": "wip",
  "harness": "h_crc32c_le",
  "enforce": ["ext2fs_crc32c_le"],
  "loop_contracts": true,
